@@ -12,6 +12,9 @@ let rec tree_of_sexp (x : Sexp.t) : ctree =
   | Sexp.L (Sexp.A "fork" :: r) -> TFork (kids r)
   | Sexp.L (Sexp.A "raw" :: r) -> TRaw (kids r)
   | Sexp.L (Sexp.A "unrec" :: r) -> TUnrec (kids r)
+  (* the wrapped parser FAILS after running its children: contexts are values, so the model is the same *)
+  | Sexp.L (Sexp.A "rawf" :: r) -> TRaw (kids r)
+  | Sexp.L (Sexp.A "unrecf" :: r) -> TUnrec (kids r)
   | Sexp.L [Sexp.A "send"; n] -> TSend (nat_of_int (Sexp.int n))
   | Sexp.L [Sexp.A "apply"; n] -> TApply (nat_of_int (Sexp.int n))
   | _ -> failwith "ctx tree"
